@@ -2,6 +2,8 @@ package props
 
 import (
 	"fmt"
+	"io"
+	"log"
 	"math/rand"
 	"os"
 	"path/filepath"
@@ -101,6 +103,69 @@ func TestC13(t *testing.T) {
 						"compactions_after_leave": stats.PostLeaveCompactions, "history_head": c10Trunc(hs, 300)})
 				}
 			}
+		}
+	})
+
+	// burst: membership events are still queued inside the snapshotter when the node shuts down
+	// right after the leave (no quiescence) - they too were sent after the leave and must have no effect
+	r.Cases("burst", r.N(150, 3000), 0, func(ci int, rng *rand.Rand) {
+		rejoin := rng.Intn(2) == 0
+		dir, err := os.MkdirTemp(base, "b")
+		if err != nil {
+			r.Inconclusive("mkdir: " + err.Error())
+			return
+		}
+		defer os.RemoveAll(dir)
+		path := filepath.Join(dir, "snap")
+		nBefore, nBurst := 1+rng.Intn(5), 1+rng.Intn(1500)
+		var got c10State
+		var rerr error
+		want := map[string]string{}
+		synctest.Test(t, func(t *testing.T) {
+			var clock serf.LamportClock
+			clock.Increment()
+			shut := make(chan struct{})
+			out := make(chan serf.Event, 8192)
+			in, snap, err := serf.NewSnapshotter(path, []int{1, 64, 128 * 1024}[rng.Intn(3)], rejoin, log.New(io.Discard, "", 0), &clock, out, shut)
+			if err != nil {
+				rerr = err
+				return
+			}
+			for i := 0; i < nBefore; i++ {
+				m := c10Mem{Name: fmt.Sprintf("before-%d", i), IP: []byte{10, 1, 0, byte(i + 1)}, Port: 7946}
+				in <- c10Event(c10Op{Kind: "join", Members: []c10Mem{m}})
+				if rejoin {
+					want[m.Name] = m.addr()
+				}
+			}
+			synctest.Wait()
+			snap.Leave()
+			synctest.Wait() // the moment of the leave
+			for i := 0; i < nBurst; i++ {
+				kind := "join"
+				name := fmt.Sprintf("after-%d", i)
+				if rejoin && rng.Intn(3) == 0 {
+					kind, name = "failed", fmt.Sprintf("before-%d", rng.Intn(nBefore))
+				}
+				in <- c10Event(c10Op{Kind: kind, Members: []c10Mem{{Name: name, IP: []byte{10, 2, byte(i >> 8), byte(i)}, Port: 7946}}})
+			}
+			close(shut) // no quiescence: part of the burst is still queued
+			snap.Wait()
+			synctest.Wait()
+			got, rerr = c10ReadSnapshot(path, rejoin)
+			time.Sleep(time.Second)
+			synctest.Wait()
+		})
+		r.Eval(1)
+		r.Count("burst_events_after_leave", nBurst)
+		if rerr != nil {
+			r.Inconclusive("burst case: " + rerr.Error())
+			return
+		}
+		wantSt := c10State{Alive: want}
+		if !got.aliveEqual(wantSt) {
+			r.Violation(map[bool]string{true: "burst-rejoin-enabled", false: "burst-rejoin-disabled"}[rejoin], ci, fmt.Sprintf("rejoin-after-leave=%v: %d members joined, Leave(), then %d membership events in a burst and an immediate shutdown: the reopened snapshot has the rejoin set %s, expected %s",
+				rejoin, nBefore, nBurst, c10Trunc(got.String(), 400), wantSt.String()), nil)
 		}
 	})
 
